@@ -95,7 +95,31 @@ fn poll_publish<F: Future<Output = ()>>(f: F) -> bool {
     false
 }
 
+thread_local! {
+    /// One current-thread runtime per worker: the hub is used inside a runtime in production, so anything it spawns
+    /// must find one; spawned tasks run only when the harness lets them (`settle`), between operations.
+    static RT: tokio::runtime::Runtime = tokio::runtime::Builder::new_current_thread().enable_time().build().expect("runtime");
+}
+
+/// Let whatever the hub may have spawned run until it is idle (no operation of the history is in progress).
+fn settle() {
+    RT.with(|rt| {
+        rt.block_on(async {
+            for _ in 0..4 {
+                tokio::task::yield_now().await;
+            }
+        })
+    });
+}
+
 pub fn check(case: &Case, obs: &mut Obs) -> CheckResult {
+    RT.with(|rt| {
+        let _g = rt.enter();
+        check_in_runtime(case, obs)
+    })
+}
+
+fn check_in_runtime(case: &Case, obs: &mut Obs) -> CheckResult {
     let hub = SubscriptionHub::new();
     let mut conns: Vec<Conn> = case
         .caps
@@ -311,6 +335,8 @@ pub fn check(case: &Case, obs: &mut Obs) -> CheckResult {
             }
             Op::Len => {}
         }
+        // background work the hub may have started is allowed to run between operations
+        settle();
         // pruning / counting: live subscriptions are counted, closed ones of a published topic are not
         let len = block_on_simple(hub.len());
         let live = subs.iter().filter(|s| !s.unsubscribed && !conns[s.conn].closed).count();
